@@ -70,7 +70,7 @@ pub fn int_of(v: &Val, bits: Option<u32>) -> BigInt {
     match v {
         Val::Zero => bi(0), Val::One => bi(1), Val::MinusOne => bi(-1),
         Val::Small(x) => bi(*x),
-        Val::Pow2(k, d, neg) => { let x = (BigInt::one() << *k) + bi(*d); if *neg { -x } else { x } }
+        Val::Pow2(k, d, neg) => { let x = (BigInt::one() << (*k % 4096)) + bi(*d); if *neg { -x } else { x } }
         Val::Big(neg, s) => { let x = parse_big(if s.is_empty() { "0" } else { s }); if *neg { -x } else { x } }
         Val::Limit(max, d) => match bits {
             Some(b) => if *max { (BigInt::one() << b) - 1 - bi(*d as i64) } else { -(BigInt::one() << b) + bi(*d as i64) },
@@ -352,6 +352,7 @@ where T: Sc + yui::Ring + Divide, for<'a> &'a T: yui::RingOps<T> {
 }
 
 fn run_case(c: &Case) -> Chk<Pass> {
+    if !Ty::RINGS.contains(&c.ty) { return discard("type-outside-domain") }
     crate::dispatch_ring!(c.ty, run_c14(c))
 }
 
